@@ -48,7 +48,7 @@ def cells_for(tier, prop):
         for fn in ("cp_estimate", "bp_estimate"):
             for warm in ([["A", "B", "C"], ["A", "B", "C"], ["B", "A"]], [["C", "B"], ["B"], ["C", "A", "B"]]):
                 out.append(dict(NC=3, B=3, winner=winner, fn=fn, hint=None, repeat=warm))
-    if prop == "C04":
+    if prop in ("C04", "C15"):
         # final filtering: an assertion may be dropped only if the one that 'subsumes' it contradicts every order it ruled out
         for t in (2, 3, 4):
             out.append(dict(kind="subsume", tail=t, two=False))
@@ -106,7 +106,7 @@ def key_of(asrtn, RU):
     return ("NEN", asrtn.winner, asrtn.loser, tuple(asrtn.eliminated))
 
 
-def _subsume(cell):
+def _subsume(cell, want):
     """NEBAssertion.subsumes(NEN): symbolic candidates (4), a symbolic tail of the given length"""
     from .c20 import SymCand
     stats = core.Stats()
@@ -181,7 +181,7 @@ def _subsume(cell):
         from symx.run import _jsonable
         import json as _json
         fj = _json.loads(_json.dumps(_jsonable(fd)))
-        rp = _subsume_replay(fj)
+        rp = _subsume_replay(fj, want=want)
         if rp["reproduced"]:
             fd["replay"] = rp
             out.append(fd)
@@ -190,7 +190,7 @@ def _subsume(cell):
     return dict(stats=stats.as_dict(), findings=out, samples=samples, notes=notes, vacuous=(st['reach'] == 0 and not findings))
 
 
-def _subsume_replay(f, budget=6000):
+def _subsume_replay(f, budget=6000, want=('C04',)):
     """a failing subsumption lemma is not itself a violation of C04: confirm it by a seeded search over random profiles on the real
     search code, looking for a returned set that leaves an alternative elimination order uncontradicted"""
     import random
@@ -243,11 +243,43 @@ def _subsume_replay(f, budget=6000):
             if not out:
                 continue
             ret = [key_of(a, RU) for a in out]
-            for pi in itertools.permutations(cands):
-                if pi[-1] != winner and not any(contradicts(k, pi) for k in ret):
-                    return dict(reproduced=True, detail=f"profile {_compress(ballots)}, reported winner {winner}, {fn.__name__}: elimination order "
-                                                        f"{''.join(pi)} is not excluded by the returned assertions {ret} (trial {trial})")
+            if "C04" in want:
+                for pi in itertools.permutations(cands):
+                    if pi[-1] != winner and not any(contradicts(k, pi) for k in ret):
+                        return dict(reproduced=True, detail=f"profile {_compress(ballots)}, reported winner {winner}, {fn.__name__}: elimination order "
+                                                            f"{''.join(pi)} is not excluded by the returned assertions {ret} (trial {trial})")
+            if "C15" in want:
+                D = max(float(a.difficulty) for a in out)
+                mm = _minmax(ballots, cands, winner, fn)
+                if mm is not None and abs(D - mm) > 1e-9 * max(1.0, abs(mm)):
+                    return dict(reproduced=True, detail=f"profile {_compress(ballots)}, reported winner {winner}, {fn.__name__}: largest returned difficulty "
+                                                        f"{D} but the least possible largest difficulty of a sufficient set of true assertions is {mm} (trial {trial})")
     return dict(reproduced=False, detail=f"subsumption lemma fails on the real code but no uncovered elimination order was found in {budget} random profiles")
+
+
+def _minmax(ballots, cands, winner, fn):
+    """brute force: the least D such that the true assertions of difficulty <= D exclude every alternative winner"""
+    B = len(ballots)
+
+    def tally(a):
+        kind, w, l, E = a
+        if kind == "NEB":
+            return (sum(1 for rk in ballots if rk[:1] == [w]), sum(1 for rk in ballots if l in rk and (w not in rk or rk.index(l) < rk.index(w))))
+        first = lambda x: sum(1 for rk in ballots if next((y for y in rk if y not in E), None) == x)
+        return first(w), first(l)
+    items = []
+    for a in universe(cands):
+        tw, tl = tally(a)
+        if tw > tl:
+            items.append((float(fn(tw, tl, B - tw - tl, B)), a))
+    items.sort(key=lambda t: t[0])
+    orders = [pi for pi in itertools.permutations(cands) if pi[-1] != winner]
+    left = set(range(len(orders)))
+    for d, a in items:
+        left = {i for i in left if not contradicts(a, orders[i])}
+        if not left:
+            return d
+    return None
 
 
 def _compress(ballots):
@@ -258,7 +290,7 @@ def _compress(ballots):
 def run_cell(cell, want):
     """want: set of clause families to check: 'C04', 'C15'"""
     if cell.get("kind") == "subsume":
-        return _subsume(cell)
+        return _subsume(cell, want)
     stats = core.Stats()
     ex = core.Explorer(stats=stats)
     findings, samples = [], []
@@ -369,6 +401,8 @@ def run_cell(cell, want):
                 for pi in orders:
                     claims.append((f"elimination order {''.join(pi)} is contradicted by a returned assertion", any(contradicts(k, pi) for k in ret)))
             if "C15" in want:
+                for pi in orders:
+                    claims.append((f"the returned set is itself sufficient (order {''.join(pi)} contradicted)", any(contradicts(k, pi) for k in ret)))
                 diffs = [a.difficulty for a in res]
                 D = max(float(d) for d in diffs)
                 # table of (winner tally, loser tally) pairs whose difficulty is strictly below D (the shipped function as a black box)
@@ -425,7 +459,7 @@ def run_cell(cell, want):
 def replay(f, want):
     cell, inp = f["cell"], f["inputs"]
     if cell.get("kind") == "subsume":
-        return _subsume_replay(f)
+        return _subsume_replay(f, want=want)
     R_ = loader.real_module("shangrla.raire.raire")
     RU = loader.real_module("shangrla.raire.raire_utils")
     SE = loader.real_module("shangrla.raire.sample_estimator")
